@@ -2756,6 +2756,7 @@ func (_getElem) exec(vm *vm) {
 		return
 	}
 	propName := toPropertyKey(vm.stack[vm.sp-1])
+	obj = v.baseObject(vm.r) // the conversion may have run code that re-pointed the shared wrapper of a primitive base
 
 	vm.stack[vm.sp-2] = nilSafe(obj.get(propName, v))
 
@@ -2776,6 +2777,7 @@ func (_getElemRecv) exec(vm *vm) {
 		return
 	}
 	propName := toPropertyKey(vm.stack[vm.sp-2])
+	obj = v.baseObject(vm.r) // the conversion may have run code that re-pointed the shared wrapper of a primitive base
 
 	vm.stack[vm.sp-3] = nilSafe(obj.get(propName, recv))
 
@@ -2815,6 +2817,7 @@ func (_getElemCallee) exec(vm *vm) {
 	}
 
 	propName := toPropertyKey(vm.stack[vm.sp-1])
+	obj = v.baseObject(vm.r) // the conversion may have run code that re-pointed the shared wrapper of a primitive base
 	prop := obj.get(propName, v)
 	if prop == nil {
 		prop = memberUnresolved{valueUnresolved{r: vm.r, ref: propName.string()}}
@@ -2838,6 +2841,7 @@ func (_getElemRecvCallee) exec(vm *vm) {
 	}
 
 	propName := toPropertyKey(vm.stack[vm.sp-1])
+	obj = v.baseObject(vm.r) // the conversion may have run code that re-pointed the shared wrapper of a primitive base
 	prop := obj.get(propName, recv)
 	if prop == nil {
 		prop = memberUnresolved{valueUnresolved{r: vm.r, ref: propName.string()}}
